@@ -73,6 +73,7 @@ type attackSession struct {
 	EntC     uint64
 	EntS     uint64
 	DynOn    bool // dynamic record sizing left enabled (many small records per Write)
+	ShortRnd bool // Config.Rand returns short reads (legal for an io.Reader)
 	Long     bool // several hundred small records in one direction (sequence numbers beyond one byte)
 }
 
@@ -135,6 +136,7 @@ func drawAttackSession(c *simkit.Choice, small bool) attackSession {
 		a.Payload[d] = drawData(c, total)
 	}
 	if !small {
+		a.ShortRnd = c.Bool(1, 4, simkit.LScen)
 		a.DynOn = c.Bool(1, 3, simkit.LScen)
 		for i := 0; i < 2; i++ {
 			a.NetA[i] = simkit.DrawNetCfg(c)
@@ -475,7 +477,9 @@ func attackCfg(a *attackSession, s *simkit.Sim, server bool, end *attackEnd) *gm
 	if server {
 		ent = a.EntS
 	}
-	cfg := &gmtls.Config{Rand: simkit.NewStream(ent), Time: simTime(s, 0), KeyLogWriter: &end.KeyLog, DynamicRecordSizingDisabled: !a.DynOn, SessionTicketsDisabled: true}
+	rnd := simkit.NewStream(ent)
+	rnd.Short = a.ShortRnd
+	cfg := &gmtls.Config{Rand: rnd, Time: simTime(s, 0), KeyLogWriter: &end.KeyLog, DynamicRecordSizingDisabled: !a.DynOn, SessionTicketsDisabled: true}
 	if a.Suite != 0 {
 		cfg.GMSupport = gmtls.NewGMSupport()
 		cfg.CipherSuites = []uint16{a.Suite}
